@@ -12,11 +12,16 @@ def gen_cells(rng, columns=None, players=None, measures=None, keysounds=None, de
     keysounds = rng.random() < 0.35 if keysounds is None else keysounds
     density = density if density is not None else rng.choice([0.03, 0.15, 0.4, 0.9])
     cells = []
+    long_chart = measures is None and rng.random() < 0.02   # a section of several hundred measures
     for _p in range(players):
         nm = measures or rng.choice([1, 1, 2, 3, 4, 6, 12])
+        if long_chart:
+            nm = rng.randint(257, 330)
         pm = []
         for _m in range(nm):
             rows = rng.choice(ROW_COUNTS) if rng.random() < 0.7 else rng.choice([4, 8, 16])
+            if long_chart:
+                rows = 4
             if rows > 48 and rng.random() < 0.5:
                 rows = rng.choice([4, 8, 12])
             mm = []
@@ -47,6 +52,13 @@ def render_cells(rng, cells, decorate=True):
     """Render cells to note data text with optional blanks / blank lines / CRLF."""
     nl = "\r\n" if (decorate and rng.random() < 0.3) else "\n"
     deco = decorate and rng.random() < 0.6
+    if decorate and rng.random() < 0.08:
+        # compact layout: the measure separator sits on the same line as the rows around it ("0001,1000")
+        secs = []
+        for pm in cells:
+            ms = [nl.join("".join(ch + (f"[{ks}]" if ks is not None else "") for ch, ks in row) for row in mm) for mm in pm]
+            secs.append(",".join(ms))
+        return (nl + "&" + nl).join(secs) + (nl if rng.random() < 0.5 else "")
 
     def blank_lines():
         if deco and rng.random() < 0.3:
@@ -139,10 +151,11 @@ def gen_single_stream(rng, columns=None, rows=None, types="1234M", density=0.5, 
     """Single-player stream on a row grid (quarter/eighth beats), heavy on holds: [[num, den, col, char, ks]]."""
     columns = columns or rng.randint(1, 6)
     rows = rows or rng.choice([3, 6, 10, 20, 40])
-    step = rng.choice([Fraction(1), Fraction(1, 2), Fraction(1, 4), Fraction(1, 3), Fraction(1, 64), Fraction(1, 100), Fraction(1, 96)])
+    step = rng.choice([Fraction(1), Fraction(1, 2), Fraction(1, 4), Fraction(1, 3), Fraction(1, 64), Fraction(1, 100), Fraction(1, 96),
+                       Fraction(1, 10**18)])   # the last: distinct beats that are the same float
     out = []
     for r in range(rows):
-        b = step * r
+        b = step * r + (4 if step.denominator > 10**6 else 0)   # 4, 4 + 1e-18, 4 + 2e-18, ...: one float, many beats
         for c in range(columns):
             if rng.random() < density:
                 ch = rng.choice(types)
